@@ -325,6 +325,9 @@ CHECKS["C14"]["text"] += " Every pair of ranks 0..12."
 CHECKS["C15"]["text"] += (" Two consecutive positions of one element type are also supplied as ONE tensor object: each position is judged by its own "
                           "constraint.")
 CHECKS["C16"]["text"] += " The sample pool contains the all-zero sample; a Gemm with beta = 0.5 is among the models."
+CHECKS["C16"]["text"] += (" Round 16: the generated model pruned_dense (Gemm transB=1, MatMul, Gemm against weights with exact zeros) gets samples "
+                          "holding +Inf, -Inf, NaN and exactly zero features; Trace_Batch.tla (ClassCode) accepts the trace only if every result has "
+                          "the same class (finite within tolerance, +Inf, -Inf, NaN) in the batch, alone, permuted and sub-selected.")
 CHECKS["C17"]["text"] += (" The callers of the odd Runs of the model with a defaulted input map that input's name to nil (not supplied): the default is "
                           "used alone and beside other Runs alike.")
 CHECKS["C18"]["text"] += " Graphs with 2..34 initializers of every malformed kind: the load returns with an error."
